@@ -536,7 +536,7 @@ def run_damv(ctx: Ctx) -> None:
            "S3 - ^S3: S2 squares in non-increasing residual order each take "
            "the first (largest) remaining S3 square with l <= W - l_a" if okC
            else "the pairing of S2 and S3 squares deviates: " + (
-               detail or "copy of S3 / loop over S2 not found"),
+               detail or "copy of S3 / loop over S2 not recognised"),
            construct="set S3 - ^S3")
     if not okC:
         return
